@@ -60,6 +60,50 @@ def make_traj(xyz32, vectors=None, lengths=None, angles=None, top=None):
 
 
 # ------------------------------------------------------------------------------------------------
+# cells beyond grids.cell_menu used by C05 and C07
+# ------------------------------------------------------------------------------------------------
+def make_cell(name, L, A, unreduced=False):
+    v = grids.lengths_angles_to_vectors(*L, *A)
+    if not unreduced:
+        return dict(name=name, vectors=v, lengths=np.array(L, float), angles=np.array(A, float), reduced=True,
+                    ortho=all(abs(x - 90) < 1e-9 for x in A))
+    u = v.copy()
+    u[1] = v[1] + v[0]
+    u[2] = v[2] + v[0] - v[1]
+    Lu, Au = grids.vectors_to_lengths_angles(u)
+    return dict(name=name, vectors=u, lengths=Lu, angles=Au, reduced=False, ortho=False)
+
+
+def extended_menu():
+    m = {c["name"]: c for c in grids.cell_menu(quick=False)}
+    # strongly skewed cells whose shortest lattice vector (a-b resp. a+b) is shorter than every cell edge
+    m["g45"] = make_cell("g45", (2.0, 2.0, 2.0), (90, 90, 45))
+    m["g45+unreduced"] = make_cell("g45+unreduced", (2.0, 2.0, 2.0), (90, 90, 45), unreduced=True)
+    m["g135"] = make_cell("g135", (2.0, 2.0, 2.0), (90, 90, 135))
+    m["g135+unreduced"] = make_cell("g135+unreduced", (2.0, 2.0, 2.0), (90, 90, 135), unreduced=True)
+    # orthorhombic cells of an all-orthorhombic stack in which consecutive frames share one or two edge lengths exactly
+    for nm, L in ORTHO_SHARED.items():
+        m[nm] = make_cell(nm, L, (90, 90, 90))
+    for nm, (L, A) in SKEW_SHARED.items():
+        m[nm] = make_cell(nm, L, A)
+    return m
+
+
+ORTHO_SHARED = {"o234": (2.0, 3.0, 4.0), "o2_36_44": (2.0, 3.6, 4.4), "o25_3_45": (2.5, 3.0, 4.5), "o26_33_4": (2.6, 3.3, 4.0),
+                "o2_3_47": (2.0, 3.0, 4.7), "o2_35_4": (2.0, 3.5, 4.0), "o27_3_4": (2.7, 3.0, 4.0)}
+# X, Y, X for every Y sharing a / b / c / ab / ac / bc with X = o234: every class in both orders, consecutive frames
+SHARED_STACKS = {}
+SHARED_STACKS["stack_ortho_shared"] = [n for y in ("o2_36_44", "o25_3_45", "o26_33_4", "o2_3_47", "o2_35_4", "o27_3_4")
+                                for n in ("o234", y, "o234")]
+# skewed cells of a per-frame-varying stack in which consecutive frames share all cell parameters but one
+SKEW_SHARED = {"h334": ((3.0, 3.0, 4.0), (90, 90, 120)), "h335": ((3.0, 3.0, 5.0), (90, 90, 120)),
+               "h3_35_4": ((3.0, 3.5, 4.0), (90, 90, 120)), "h28_3_4": ((2.8, 3.0, 4.0), (90, 90, 120)),
+               "h334_al80": ((3.0, 3.0, 4.0), (80, 90, 120)), "h334_be100": ((3.0, 3.0, 4.0), (90, 100, 120)),
+               "h334_ga100": ((3.0, 3.0, 4.0), (90, 90, 100))}
+SHARED_STACKS["stack_skew_shared"] = [n for y in ("h335", "h3_35_4", "h28_3_4", "h334_al80", "h334_be100", "h334_ga100")
+                               for n in ("h334", y, "h334")]
+
+# ------------------------------------------------------------------------------------------------
 # minimum image with proven search range
 # ------------------------------------------------------------------------------------------------
 _RB_CACHE = {}
